@@ -59,7 +59,8 @@ type ReqSpec struct {
 	Chunk     simenv.ChunkPlan `json:"chunk,omitempty"`
 	GetBody   string           `json:"get_body,omitempty"` // "" | ok | err
 	CLUnknown bool             `json:"cl_unknown,omitempty"`
-	CLZero    bool             `json:"cl_zero,omitempty"` // ContentLength 0 with a non-nil body: "unknown" for client-style requests (net/http)
+	CLSmall   bool             `json:"cl_small,omitempty"` // ContentLength announces half of what the stream holds (a body replaced by a longer one upstream, the field left alone)
+	CLZero    bool             `json:"cl_zero,omitempty"`  // ContentLength 0 with a non-nil body: "unknown" for client-style requests (net/http)
 }
 
 type RespSpec struct {
@@ -264,6 +265,8 @@ var paramPool = []ParamDecl{
 	{Name: "tags", In: "query", Type: "array", Default: []any{"x", "y"}, Explode: "", Enum: []any{"x", "y", "z"}},
 	{Name: "X-Mode", In: "header", Type: "string", Default: "std"},
 	{Name: "X-Level", In: "header", Type: "integer", Default: float64(3)},
+	{Name: "ratio", In: "query", Type: "number", Default: float64(1234567.5)},
+	{Name: "ids", In: "query", Type: "array", Default: []any{float64(5), float64(3000000)}, Explode: "true"},
 	{Name: "sess", In: "cookie", Type: "string", Default: "anon"},
 	{Name: "page", In: "cookie", Type: "integer", Default: float64(1)},
 	{Name: "q", In: "query", Type: "string"},                      // no default
@@ -320,6 +323,10 @@ func Gen(seed uint64, prop, tier string) *Spec {
 			continue
 		}
 		seen[p.In+p.Name] = true
+		if f, ok := p.Default.(float64); ok && p.Type == "integer" && f < 1000 && r.Chance(1, 3) {
+			// defaults need not be small
+			p.Default = simfw.Pick(r, []float64{1000000, 20000001, 1234567890123})
+		}
 		d.Params = append(d.Params, p)
 	}
 	// path-item level parameters: some overridden by an operation parameter of the same
@@ -329,7 +336,7 @@ func Gen(seed uint64, prop, tier string) *Spec {
 			if p.Default != nil && p.Type != "array" && r.Bool() {
 				pp := ParamDecl{Name: p.Name, In: p.In, Type: p.Type}
 				switch p.Type {
-				case "integer":
+				case "integer", "number":
 					pp.Default = float64(77)
 				case "boolean":
 					pp.Default = true
@@ -525,6 +532,7 @@ func Gen(seed uint64, prop, tier string) *Spec {
 		q.GetBody = simfw.Pick(r, []string{"", "", "ok", "err"})
 		q.CLUnknown = r.Chance(1, 4)
 		q.CLZero = !q.CLUnknown && r.Chance(1, 6)
+		q.CLSmall = !q.CLUnknown && !q.CLZero && r.Chance(1, 10)
 	}
 	// sometimes further requests are in flight: same shape, their own marker and delivery
 	if q.BodyMode == "stream" && q.Chunk.FaultAt == 0 && r.Chance(1, 4) {
